@@ -44,6 +44,8 @@ func Explore(m *model.Model, repo, filter, kind, pkgFilter string) {
 	switch kind {
 	case "delete":
 		muts = genDeletes(m, filter)
+	case "negate":
+		muts = genNegates(m, filter)
 	default:
 		muts = genSwaps(m, filter)
 	}
@@ -298,4 +300,57 @@ func groupOr(g, name string) string {
 		return g
 	}
 	return name
+}
+
+// genNegates: the condition of every if statement is negated.
+func genNegates(m *model.Model, filter string) []mutant {
+	var out []mutant
+	for _, p := range explorePkgs(m) {
+		for _, f := range p.Syntax {
+			fname := m.Prog.Fset.Position(f.Pos()).Filename
+			if strings.HasSuffix(fname, "_test.go") || strings.Contains(fname, "zz_verif") {
+				continue
+			}
+			src, err := os.ReadFile(fname)
+			if err != nil {
+				continue
+			}
+			for _, d := range f.Decls {
+				fd, ok := d.(*ast.FuncDecl)
+				if !ok || fd.Body == nil {
+					continue
+				}
+				name := fd.Name.Name
+				expect := model.ShortPkg(p.PkgPath) + "." + name
+				group := ""
+				if fd.Recv != nil && len(fd.Recv.List) == 1 {
+					tn := load.RecvTypeName(fd.Recv.List[0].Type)
+					name = tn + "." + name
+					expect = model.ShortPkg(p.PkgPath) + "." + tn
+					group = tn
+				}
+				if filter != "" && !strings.Contains(name, filter) {
+					continue
+				}
+				if fd.Recv == nil && !fd.Name.IsExported() {
+					expect = ""
+				}
+				ast.Inspect(fd.Body, func(x ast.Node) bool {
+					ifs, ok := x.(*ast.IfStmt)
+					if !ok {
+						return true
+					}
+					off := func(pos token.Pos) int { return m.Prog.Fset.Position(pos).Offset }
+					pos := m.Prog.Fset.Position(ifs.Cond.Pos())
+					txt := string(src[off(ifs.Cond.Pos()):off(ifs.Cond.End())])
+					out = append(out, mutant{ID: fmt.Sprintf("negate:%s:%d:%d", name, pos.Line, pos.Column), Op: "negate", Group: groupOr(group, name), File: fname,
+						Edits:  []edit{{off(ifs.Cond.Pos()), off(ifs.Cond.End()), "!(" + txt + ")"}},
+						Expect: expect,
+						Desc:   fmt.Sprintf("%s %s  negate [%s]", name, m.Prog.Rel(ifs.Cond.Pos()), oneLine(txt))})
+					return true
+				})
+			}
+		}
+	}
+	return out
 }
